@@ -444,15 +444,19 @@ RECONF_WRAPPED = [('And:Macd+Rsi', 'And:Trix+Bop'), ('Or:Macd+Rsi', 'Or:Vwma+Gol
                   ('Split:Macd+Rsi', 'Split:Trix+Kdj'), ('Inverse:Macd', 'Inverse:Kdj'), ('NoLoss:Macd', 'NoLoss:Rsi'), ('StopLoss:Macd', 'StopLoss:Trix')]
 
 
-def check_reconf(res, rng, tier, which, prop):
+def check_reconf(res, rng, tier, which, prop, names=None, modes=('replace', 'inplace', 'literal')):
     """C09 "an instance holds configuration only": a used instance whose exported configuration is then overwritten
     with that of a fresh donor must behave like a fresh instance of the donor's configuration (RECONF in harness/reconf.go).
+    Modes: 'replace' (exported fields assigned from the donor), 'inplace' (exported leaf fields assigned, sub-objects kept),
+    'literal' (the instance is reset to its zero value first: a struct literal filled in field by field).
     which: subset of {'IND', 'STRAT', 'WRAPPED'}.  Returns (cases, bad)."""
     hi = 6 if tier == 'quick' else 12
     cases = []
     reps = 1 if tier == 'quick' else 4
     if 'IND' in which:
         for name, (kinds, cfg, default) in CAT.items():
+            if names is not None and name not in names:
+                continue
             for j in range(reps):
                 a, b = cfg(rng, hi), cfg(rng, hi)
                 for _ in range(6):
@@ -497,14 +501,14 @@ def check_reconf(res, rng, tier, which, prop):
                 cases.append(dict(kind='STRAT', a='MacdRsi', b='MacdRsi', nsA=[p1, p2, p3], fsA=lv, nsB=[], fsB=[], envs=envs))
     lines = []
     for i, c in enumerate(cases):
-        for m, mode in enumerate(('replace', 'inplace')):
+        for m, mode in enumerate(modes):
             lines.append('r%d_%d RECONF %s %s %s %s %s %s %s %s %s' % (
                 i, m, c['kind'], c['a'], vlib.il(c['nsA']), vlib.fl(c['fsA']), c['b'], vlib.il(c['nsB']), vlib.fl(c['fsB']), mode,
                 '/'.join(vlib.streams(e) for e in c['envs'])))
     got = vlib.run_go(lines)
     bad = 0
     for i, c in enumerate(cases):
-        for m, mode in enumerate(('replace', 'inplace')):
+        for m, mode in enumerate(modes):
             g = got.get('r%d_%d' % (i, m), 'missing')
             problem = None
             if not g.startswith('ok '):
@@ -520,9 +524,9 @@ def check_reconf(res, rng, tier, which, prop):
                 bad += 1
                 if bad <= 10:
                     res.violation({'reconf_cases': [c], 'mode': mode, 'problem': problem, 'property': prop,
-                                   'lines': [lines[2 * i + m].split(' ', 1)[1]],
+                                   'lines': [lines[len(modes) * i + m].split(' ', 1)[1]],
                                    'oracle': 'an instance holds configuration only: after any earlier Compute, its behaviour is that of a fresh instance with the same exported configuration'})
-    return len(cases) * 2, bad
+    return len(cases) * len(modes), bad
 
 
 def run_race(lines, env):
